@@ -313,10 +313,20 @@ func runC14(c *config) {
 			}
 			return
 		}
+		if sh, ok := rp.Detail["share_history"].(string); ok {
+			if rc, ok := c14sDec(sh); ok {
+				with, _, _, _, dd := c14sRun(rc, true)
+				without, _, _, _, _ := c14sRun(rc, false)
+				fmt.Printf("history (shared type objects): %s\n--- with the observer calls:\n%s\n--- without:\n%s\n--- dump difference: %s\n", sh, with, without, dd)
+				c14sCheck(c, rc)
+				return
+			}
+		}
 		fmt.Println("replay: re-run ./check C14 with the same VERIF_SEED (histories are deterministic for a seed)")
 		return
 	}
 	c14Wide(c, newRng(c.seed, "c14wide"))
+	c14Share(c, newRng(c.seed, "c14share"))
 	c14Consts(c, newRng(c.seed, "c14const"))
 	c14Metadata(c, newRng(c.seed, "c14md"))
 	for i := 0; i < 3000*c.scale; i++ {
